@@ -25,6 +25,22 @@ ASSUME = {
 }
 
 
+# C11 also for the use-case data the application reads from node management (SpineCore histories of the use-case operations;
+# the data sets read in earlier steps are kept and compared)
+UC_PART = {
+    "checked": ["ucsnap", "ucs", "panic"],
+    "assumptions": [],
+    "quick": {"mc": [{"acts": ["adduc", "remuc", "setav", "remall"], "tiny": ["adduc"], "maxlen": 3}],
+              "gen": [{"acts": ["adduc", "remuc", "setav", "remall"], "maxlen": 3},
+                      {"acts": ["adduc", "remuc", "setav"], "tiny": ["adduc"], "maxlen": 4, "view": None}],
+              "sim": [], "cap": 12000},
+    "thorough": {"mc": [{"acts": ["adduc", "remuc", "setav", "remall"], "maxlen": 4}],
+                 "gen": [{"acts": ["adduc", "remuc", "setav", "remall"], "maxlen": 4},
+                         {"acts": ["adduc", "remuc", "setav"], "tiny": ["adduc"], "maxlen": 5, "view": None}],
+                 "sim": [], "cap": 100000},
+}
+
+
 def consts(nk, flag, mode, maxlen, origins, rich, devs=()):
     return {"KnownDeviations": set(devs), "HasFlag": flag, "NKeys": nk, "Mode": mode, "MaxLen": maxlen, "Origins": set(origins), "Rich": rich}
 
@@ -212,13 +228,19 @@ def run(prop, tier, seed, replay=None):
             else:
                 viol += 1
                 print("VIOLATION property=%s replay=none (deviation %s used but not listed)" % (prop, name))
+        ucpart = None
+        if prop == "C11":
+            import core
+            cr = core.execute(prop, tier, seed, UC_PART, clear=False)
+            viol += cr["viol"]
+            ucpart = {k: cr["cov"][k] for k in ("traces_validated_against_impl", "evaluations", "checked_components", "bad_steps")}
         refl_fns = sorted(u[0][5:] for u in units if u[0].startswith("refl:"))
         cov = {"states": states, "transitions": trans, "traces_validated_against_impl": ncases, "evaluations": total_steps,
                "distinct_nontrivial": len(distinct),
                "rule": "every (existing list, update) pair of the small domain (TLC initial-state enumeration) and BFS transition cover of update histories per signature (key fields, flag); "
                        "executed on three hand-mapped list types (FunctionData and end to end) and on every list function the reflective adapter maps (sample per function in the quick tier); "
                        "distinct = distinct (function, path, filter shape, origin, persist, data length, outcome, list lengths) classes in a sample of the trace",
-               "samples": samples, "trace_lines": total_lines, "steps_by_layer": layer_steps, "beyond_listed_properties": beyond,
+               "samples": samples, "trace_lines": total_lines, "steps_by_layer": layer_steps, "beyond_listed_properties": beyond, "use_case_data_part": ucpart,
                "list_functions_reflective": {"covered": refl_fns, "n_covered": len(refl_fns),
                                              "not_mapped": {i["fn"]: i["why"] for i in survey if not i["usable"] and "not a list" not in i["why"]}},
                "exhaustive": True, "deviations_used": {k: v["n"] for k, v in devs_used.items()},
